@@ -3,6 +3,7 @@ package checks
 import (
 	"encoding/json"
 	"fmt"
+	"github.com/free5gc/ike/message"
 
 	"verif/mc/engine"
 	"verif/mc/ref"
@@ -12,11 +13,12 @@ import (
 // C05 — wire format against the independent RFC 7296 codec, both directions.
 
 type c05Case struct {
-	Dir  string  `json:"dir"` // fwd | rev
-	Name string  `json:"name"`
-	M    ref.Msg `json:"m"`
-	L    ref.Lib `json:"lib"`
-	LN   string  `json:"libname"`
+	Dir   string  `json:"dir"` // fwd | rev
+	Name  string  `json:"name"`
+	M     ref.Msg `json:"m"`
+	L     ref.Lib `json:"lib"`
+	LN    string  `json:"libname"`
+	Shape []int   `json:"list_shape,omitempty"` // fwd-shared: the payload list as indices into M.P (equal indices: one object)
 }
 
 type libVar struct {
@@ -131,6 +133,18 @@ func init() {
 					evalC05(c, c05Case{Dir: "rev", Name: name, M: pm, LN: "transform-order"})
 				}
 			})
+			// the caller's list may name one payload object more than once (a notification sent twice, one vendor ID
+			// at both ends): the chain is laid out by position, not by object
+			al := univ.Alphabet()
+			for i, a := range al {
+				if !c.Mine() {
+					continue
+				}
+				for _, shape := range [][]int{{0, 1, 0}, {0, 0}, {1, 0, 1, 0}, {0, 1, 1}} {
+					q := al[(i*7+3)%len(al)]
+					evalC05(c, c05Case{Dir: "fwd-shared", Name: a.Name + " / " + q.Name, M: ref.Msg{H: univ.BaseHdr, P: []ref.Payload{a.P, q.P}}, Shape: shape})
+				}
+			}
 			univ.Sweeps(c.Thorough(), func(name string, m ref.Msg, fits bool) {
 				if !fits || !c.Mine() {
 					return
@@ -153,6 +167,40 @@ func evalC05(c *engine.Ctx, cs c05Case) {
 	c.Evals++
 	c.Transitions++
 	m := cs.M
+	if cs.Dir == "fwd-shared" {
+		// M.P holds the distinct payloads, Shape the list as indices into it: equal indices are the same object
+		objs, err := univ.BuildPayloads(m.P)
+		if err != nil || len(objs) != len(m.P) {
+			return
+		}
+		var list message.IKEPayloadContainer
+		var want []ref.Payload
+		for _, ix := range cs.Shape {
+			list = append(list, objs[ix])
+			want = append(want, m.P[ix])
+		}
+		lm := message.NewMessage(m.H.ISPI, m.H.RSPI, m.H.Exch, m.H.Flags&0x20 != 0, m.H.Flags&0x08 != 0, m.H.MsgID, list)
+		var b []byte
+		if pi := engine.Catch(func() { b, err = lm.Encode() }); pi != nil {
+			c.Violate(pi.Sig(), "Encode of a list naming one payload object twice panics: "+pi.Value, cs)
+			return
+		}
+		if err != nil {
+			c.Count("shared_object_lists_refused", 1)
+			return
+		}
+		got, _, perr := ref.Parse(b, true)
+		if perr != nil {
+			c.Violate("fwd/malformed/"+classify(perr)+"/shared-object", fmt.Sprintf("%s, list shape %v: library output rejected by the strict RFC parser: %v; wire=%s", cs.Name, cs.Shape, perr, engine.Hex(trunc(b, 120))), cs)
+			return
+		}
+		if ref.CanonPayloads(got.P) != ref.CanonPayloads(want) {
+			c.Violate("fwd/fields/shared-object/"+ref.FirstDiff(want, got.P), fmt.Sprintf("%s, list shape %v: reference parser reads %s", cs.Name, cs.Shape, trs(ref.CanonPayloads(got.P))), cs)
+			return
+		}
+		c.Distinct(engine.Hash64(b))
+		return
+	}
 	if cs.Dir == "fwd" {
 		_, b, stage, err, pi := encodeLib(m)
 		if pi != nil {
